@@ -420,7 +420,14 @@ func (in *Inst[M, A, V, E]) Shard(r *lib.Rng, m M, mustWork bool) (rep *Report[M
 	var err, err2 error
 	nonce := rep.Nonce
 	p := lib.Try(in.entry("Shard"), append([]byte(in.S.Desc(m)+"|"), rep.Rand...), func() {
-		ps, is, err = in.P.Shard(m, &nonce, rep.Rand)
+		// the randomness is handed over in a buffer that is overwritten as
+		// soon as Shard returns (a client wiping it): the shares must not
+		// live in it (the second call, compared below, keeps its buffer)
+		randIn := append([]byte(nil), rep.Rand...)
+		ps, is, err = in.P.Shard(m, &nonce, randIn)
+		for i := range randIn {
+			randIn[i] ^= 0xA5
+		}
 		ps2, is2, err2 = in.P.Shard(m, &nonce, rep.Rand)
 	})
 	wit := func() map[string]any {
